@@ -271,7 +271,9 @@ impl<S: Read> Master<S> {
             let sorter = Sorter::from_str(sorter)?;
             // Only the most significant key (the last to sort) can drop rows early.
             let max_size = if index == 0 {
-                self.cli.take.map(|take| (self.cli.skip + take) as usize)
+                self.cli
+                    .take
+                    .map(|take| usize::try_from(self.cli.skip.saturating_add(take)).unwrap_or(usize::MAX))
             } else {
                 None
             };
